@@ -72,17 +72,26 @@ def _diff_plain(d):
     return [(str(op), row, _diff_plain(ch), m.get("raw_rule") if isinstance(m, dict) else None) for (op, row, ch, m) in d]
 
 
+SHOW_RULES = (False, True)
+
+
 def check_pair(hw, old, new):
     from annet import api
+    from annet.annlib import patching
+    from annet.annlib.diff import gen_pre_as_diff
     dev, fmt = vendor_ctx(hw)
     res = {}
     for mode in ("file", "device"):
         try:
             if mode == "file":
-                _, d, _, p = api._read_old_new_diff_patch(copy.deepcopy(old), copy.deepcopy(new), hw, False)
+                _, d, pre, p = api._read_old_new_diff_patch(copy.deepcopy(old), copy.deepcopy(new), hw, False)
             else:
                 d, p = api._diff_and_patch(dev, copy.deepcopy(old), copy.deepcopy(new), None, None, False)
-            res[mode] = ("ok", [list(x) for x in fmt.cmd_paths(p)], _diff_plain(d))
+                pre = patching.make_pre(d)
+            # what the front end PRINTS as the diff (file-diff prints the returned grouped diff, the device front end groups
+            # the returned diff tree), with and without rule headers
+            shown = ["".join(gen_pre_as_diff(pre, sr, "  ", True)) for sr in SHOW_RULES]
+            res[mode] = ("ok", [list(x) for x in fmt.cmd_paths(p)], _diff_plain(d), shown)
         except Exception as e:  # noqa
             res[mode] = ("exc", type(e).__name__, str(e)[:200])
     f, d = res["file"], res["device"]
@@ -98,6 +107,9 @@ def check_pair(hw, old, new):
             "patch-differs" if (onlyf or onlyd) else "patch-order-differs", ncmd
     if f[2] != d[2]:
         return False, {"file_diff": str(f[2])[:600], "device_diff": str(d[2])[:600]}, "diff-differs", ncmd
+    if f[3] != d[3]:
+        k = 0 if f[3][0] != d[3][0] else 1
+        return False, {"file_mode_prints": f[3][k][:800], "device_mode_prints": d[3][k][:800], "show_rules": SHOW_RULES[k]}, "printed-diff-differs", ncmd
     return True, None, None, ncmd
 
 
